@@ -4,15 +4,18 @@ from __future__ import annotations
 import glob
 import os
 
+import yaml
+
 from hypothesis import strategies as st
 
+from vf import cli
 from vf.core import HarnessError, HypPart, Oracle, VERIF_DIR, spsdk_frame
 from vf.gen import keys as K
 from vf.ref import sb31_rom
 
 ID = "C05"
 LEVEL = "exploration"
-TECHNIQUE = "Hypothesis-generated command sequences, key sets, header parameters and export histories; differential against an independent SB3.1 loader model (hash chain, CMAC-KDF, AES-CBC, cert block v2.1, ECDSA, command decoder) calibrated on stored upstream containers"
+TECHNIQUE = "Hypothesis-generated command sequences, key sets, header parameters and export histories; differential against an independent SB3.1 loader model (hash chain, CMAC-KDF, AES-CBC, cert block v2.1, ECDSA, command decoder) calibrated on stored upstream containers; a third of the configuration-built cases are also built by the real `nxpimage sb31 export` command and its output file judged by the same model"
 LEVEL_TEXT = (
     "exploration over inputs and export histories: every container returned by every export() of a generated history is processed by a loader "
     "model that shares no code with spsdk; it must accept it (header, hash of block 1, certificate block, ISK and container signatures, hash chain "
@@ -30,7 +33,7 @@ ASSUMPTIONS = [
     "the successor hash of the last data block is zero (as in all stored containers)",
     "ECDSA signatures are randomised: validity is checked, not bytes",
 ]
-FLOORS = {"encrypted": 0.12, "isk": 0.1, "multi_export": 0.12, "blocks>=2": 0.12}
+FLOORS = {"cli": 0.012, "encrypted": 0.12, "isk": 0.1, "multi_export": 0.12, "blocks>=2": 0.12}
 
 GOLD = os.path.join(VERIF_DIR, "fixtures", "golden", "sb31")
 FAMILIES = ["lpc55s3x", "mcxn9xx", "kw45xx", "k32w1xx", "lpc55s36", "mcxn947", "kw45b41z8", "rw612", "mcxw716c", "mimxrt798s"]
@@ -317,8 +320,6 @@ def _build_from_config(case, o: Oracle, roots, used, isk, user_data, commands, s
             with open(os.path.join(wd, "isk_data.bin"), "wb") as f:
                 f.write(user_data)
             cbc["signCertData"] = "isk_data.bin"
-    import yaml
-
     with open(os.path.join(wd, "cert_block.yaml"), "w") as f:
         yaml.safe_dump(cbc, f)
     with open(os.path.join(wd, "sign_key.pem"), "wb") as f:
@@ -333,14 +334,26 @@ def _build_from_config(case, o: Oracle, roots, used, isk, user_data, commands, s
     with o.spsdk("config", "check_config"):
         check_config(cfg, SecureBinary31.get_validation_schemas(family), search_paths=[wd])
     sb = SecureBinary31.load_from_config(cfg, search_paths=[wd])
+    # the same configuration, written next to its files, through the real `nxpimage sb31 export`
+    by_command = None
+    if cli.selected(case, CLI_ONE_IN):
+        cfg_path = os.path.join(wd, "sb31.yaml")
+        with open(cfg_path, "w") as f:
+            yaml.safe_dump(cfg, f, sort_keys=False)
+        res = cli.run(o, "sb31_export", ["sb31", "export", "-c", cfg_path], cwd=os.path.join(wd, "cwd"))
+        if res is not None:
+            data = cli.read(o, "sb31_export", os.path.join(wd, cfg["containerOutputFile"]))
+            if data is not None:
+                by_command = (data, res)
     import shutil
 
     shutil.rmtree(wd, ignore_errors=True)
-    return sb, real, family
+    return sb, real, family, by_command
 
 
 _CTX: dict = {}
 _SP = []
+CLI_ONE_IN = 4  # share of the via=config cases (a fifth to a third of all) that are also built by the real `nxpimage sb31 export`
 
 
 def _sp(desc):
@@ -393,6 +406,7 @@ def run_case(case, o: Oracle) -> None:
     _classify(case, o, commands, hname)
 
     via = case.get("via", "class")
+    by_command = None
     if via == "config" and user_data and len(user_data) % 16:
         user_data = user_data[: len(user_data) - len(user_data) % 16]  # isk_data_alignment of the families (checked by the config path)
     o.label("via:" + via)
@@ -402,7 +416,7 @@ def run_case(case, o: Oracle) -> None:
                 # a hex literal of a 256-bit key whose upper half is zero is also a valid 128-bit literal: the configuration
                 # loader tries both widths and keeps the shorter one (observation noted in DESIGN.md 9.3); keep the literal unambiguous
                 pck = b"\x80" + pck[1:]
-            sb, commands, fam = _build_from_config(case, o, roots, used, isk, user_data, commands, signer, pck)
+            sb, commands, fam, by_command = _build_from_config(case, o, roots, used, isk, user_data, commands, signer, pck)
             o.label("cfg_family:" + fam)
             raise _Built()
         root_pubs = [PublicKeyEcc(K.key_from_desc(r).public_key()) for r in roots]
@@ -427,6 +441,7 @@ def run_case(case, o: Oracle) -> None:
         return
 
     current = [expected(c) for c in commands]
+    first = list(current)  # the command list of the configuration file (before any add_command of the history)
     extra = list(case["extra"])
     for step, op in enumerate(case["history"]):
         if op == "add_export" and extra:
@@ -440,54 +455,70 @@ def run_case(case, o: Oracle) -> None:
         if data is None:
             return
         o.artifact("file_step%d" % step, data)
-        sub = "rom_accepts" if step == 0 else "rom_accepts_again"
-        try:
-            m = sb31_rom.load(data, pck if case["encrypted"] else None, rights=case["rights"])
-        except sb31_rom.Reject as exc:
-            o.fail(sub, "reject", "export #%d: %s" % (step + 1, exc))
-            continue
-        h = m["header"]
-        hs = "header" if step == 0 else "header_again"
-        o.eq(hs, "hash_type", h["hash"], hname)
-        o.eq(hs, "flags", h["flags"], case["flags"])
-        o.eq(hs, "timestamp", h["timestamp"], case["timestamp"])
-        o.eq(hs, "firmware_version", h["firmware_version"], case["firmware_version"])
-        o.eq(hs, "image_type", h["image_type"], 7 if case["nxp"] else 6)
-        want_desc = (case["description"] or "").encode("ascii")[:16].ljust(16, b"\0")
-        o.eq(hs, "description", h["description"], want_desc)
-        cbm = m["cert_block"]
-        o.eq("cert_block", "used_root", cbm.used_root, used)
-        o.eq("cert_block", "root_count", cbm.root_count, len(roots))
-        o.eq("cert_block", "ca_flag", cbm.ca, isk is None)
-        if isk:
-            o.eq("cert_block", "isk_user_data", cbm.isk["user_data"], user_data)
-            o.eq("cert_block", "isk_constraints", cbm.isk["constraints"], case["constraints"])
-            o.eq("cert_block", "isk_key", (cbm.isk["x"], cbm.isk["y"]), K.ec_public_xy(isk["curve"], isk["d"]))
-        from vf.ref.certblock21 import rot_hash
+        _judge(o, case, data, step, pck, hname, rc, roots, used, isk, user_data, current)
+        if step == 0 and by_command is not None:
+            # what `nxpimage sb31 export` wrote from the same configuration file: the same model, the same expectations
+            cdata, cres = by_command
+            co = cli.Scoped(o, "sb31_export")
+            m = _judge(co, case, cdata, 0, pck, hname, rc, roots, used, isk, user_data, first)
+            if current == first:
+                co.eq("twin", "length", len(cdata), len(data))
+            if m is not None:
+                co.check("rkth", ("RKTH: %s" % m["cert_block"].rot_hash.hex()) in cres.output, "printed_value", cres.describe())
 
-        o.eq("cert_block", "rot_hash", cbm.rot_hash, rot_hash(rc, [K.ec_public_xy(rc, r["d"]) for r in roots]))
-        cs = "content" if step == 0 else "content_again"
-        try:
-            got = sb31_rom.decode_stream(m["stream"])
-        except sb31_rom.Reject as exc:
-            o.fail(cs, "stream_reject", str(exc))
+
+def _judge(o, case, data: bytes, step: int, pck: bytes, hname: str, rc: str, roots: list, used: int, isk, user_data: bytes, current: list):
+    """The loader model on one exported container: accepted, header fields, certificate block and command stream as given.
+    Returns the model's reading (None: rejected)."""
+    sub = "rom_accepts" if step == 0 else "rom_accepts_again"
+    try:
+        m = sb31_rom.load(data, pck if case["encrypted"] else None, rights=case["rights"])
+    except sb31_rom.Reject as exc:
+        o.fail(sub, "reject", "export #%d: %s" % (step + 1, exc))
+        return None
+    h = m["header"]
+    hs = "header" if step == 0 else "header_again"
+    o.eq(hs, "hash_type", h["hash"], hname)
+    o.eq(hs, "flags", h["flags"], case["flags"])
+    o.eq(hs, "timestamp", h["timestamp"], case["timestamp"])
+    o.eq(hs, "firmware_version", h["firmware_version"], case["firmware_version"])
+    o.eq(hs, "image_type", h["image_type"], 7 if case["nxp"] else 6)
+    want_desc = (case["description"] or "").encode("ascii")[:16].ljust(16, b"\0")
+    o.eq(hs, "description", h["description"], want_desc)
+    cbm = m["cert_block"]
+    o.eq("cert_block", "used_root", cbm.used_root, used)
+    o.eq("cert_block", "root_count", cbm.root_count, len(roots))
+    o.eq("cert_block", "ca_flag", cbm.ca, isk is None)
+    if isk:
+        o.eq("cert_block", "isk_user_data", cbm.isk["user_data"], user_data)
+        o.eq("cert_block", "isk_constraints", cbm.isk["constraints"], case["constraints"])
+        o.eq("cert_block", "isk_key", (cbm.isk["x"], cbm.isk["y"]), K.ec_public_xy(isk["curve"], isk["d"]))
+    from vf.ref.certblock21 import rot_hash
+
+    o.eq("cert_block", "rot_hash", cbm.rot_hash, rot_hash(rc, [K.ec_public_xy(rc, r["d"]) for r in roots]))
+    cs = "content" if step == 0 else "content_again"
+    try:
+        got = sb31_rom.decode_stream(m["stream"])
+    except sb31_rom.Reject as exc:
+        o.fail(cs, "stream_reject", str(exc))
+        return m
+    if not o.eq(cs, "command_count", len(got), len(current)):
+        o.fail(cs, "command_list", "got %r want %r" % ([g["cmd"] for g in got], [w["cmd"] for w in current]))
+        return m
+    for i, (g, w) in enumerate(zip(got, current)):
+        if g["cmd"] != w["cmd"]:
+            o.fail(cs, "command_id", "command %d: got %s want %s" % (i, g["cmd"], w["cmd"]))
             continue
-        if not o.eq(cs, "command_count", len(got), len(current)):
-            o.fail(cs, "command_list", "got %r want %r" % ([g["cmd"] for g in got], [w["cmd"] for w in current]))
-            continue
-        for i, (g, w) in enumerate(zip(got, current)):
-            if g["cmd"] != w["cmd"]:
-                o.fail(cs, "command_id", "command %d: got %s want %s" % (i, g["cmd"], w["cmd"]))
-                continue
-            for k, v in w.items():
-                gv = g.get(k)
-                if isinstance(v, tuple):
-                    gv = tuple(gv)
-                if gv != v:
-                    o.fail(cs, "%s:%s" % (w["cmd"], k), "command %d: got %r want %r" % (i, gv if not isinstance(gv, bytes) else gv.hex()[:64], v if not isinstance(v, bytes) else v.hex()[:64]))
-        # coverage: minimal number of blocks for the stream
-        stream_len = 16 + sum(_enc_len(w) for w in current)
-        o.eq(cs, "block_count", h["block_count"], max(1, (stream_len + 255) // 256))
+        for k, v in w.items():
+            gv = g.get(k)
+            if isinstance(v, tuple):
+                gv = tuple(gv)
+            if gv != v:
+                o.fail(cs, "%s:%s" % (w["cmd"], k), "command %d: got %r want %r" % (i, gv if not isinstance(gv, bytes) else gv.hex()[:64], v if not isinstance(v, bytes) else v.hex()[:64]))
+    # coverage: minimal number of blocks for the stream
+    stream_len = 16 + sum(_enc_len(w) for w in current)
+    o.eq(cs, "block_count", h["block_count"], max(1, (stream_len + 255) // 256))
+    return m
 
 
 def _enc_len(w: dict) -> int:
@@ -531,6 +562,7 @@ def _classify(case, o: Oracle, commands, hname) -> None:
 
 def parts(ctx):
     _CTX["work"] = ctx.work
+    cli.preload()
     from vf import pins
 
     return [HypPart("sb31", _case(), run_case, {"quick": 1600, "thorough": 60000}),
